@@ -507,3 +507,53 @@ func H_Close_ByOwner_WhileLocked() {
 	cm := env.Comm.GetCommitments(ctx, levtypes.GetPositionAddress(1))
 	vrf.Assert(cm.GetCommittedAmountForDenom(share).Equal(s.posLp), "C12: shares under an unexpired lock are not withdrawn by their owner's close, healthy or not (only a liquidation overrides the lock)")
 }
+
+// close-positions from a third party: stop-loss list. The position may change only if a stop-loss price is set
+// (non-zero) and the market LP-token price (the pool's accounted TVL per share) is at or below it.
+//
+//vrf:cover untouched closed
+//vrf:bound 1 existing position named in the stop-loss list by a third party; stop-loss price symbolic >= 0; the accounted pool exceeds the amm reserves by a symbolic amount (liquidity lent to perpetual positions); oracle prices present or absent
+//vrf:max-paths 3000
+func H_ClosePositions_StopLoss() {
+	s := setup(true)
+	env, ctx := s.env, s.env.Ctx
+	// liquidity of the pool that is lent out: the accounted pool is larger than the amm reserves
+	extra := nonneg("accountedExtraUsdc")
+	vrf.Assume(extra.LTE(sdkmath.NewIntWithDecimal(1, 30)))
+	acc, _ := env.Acc.GetAccountedPool(ctx, 1)
+	for i := range acc.TotalTokens {
+		if acc.TotalTokens[i].Denom == usdc {
+			acc.TotalTokens[i].Amount = acc.TotalTokens[i].Amount.Add(extra)
+			acc.NonAmmPoolTokens[i].Amount = acc.NonAmmPoolTokens[i].Amount.Add(extra)
+		}
+	}
+	env.Acc.SetAccountedPool(ctx, acc)
+	if vrf.Bool("oracleOutage") {
+		env.Oracle.RemovePrice(ctx, "ATOM", otypes.ELYS, now)
+		env.Oracle.RemovePrice(ctx, "USDC", otypes.ELYS, now)
+	}
+	// share supplies are at most 1e40 here (a pool starts with 1e20 shares for its first deposit): with the reserves of
+	// the setup (1e30 each) the LP price is far from rounding to zero
+	vrf.Assume(s.T.LTE(sdkmath.NewIntWithDecimal(1, 40)))
+	ammPool, _ := env.Amm.GetPool(ctx, 1)
+	market, perr := ammPool.LpTokenPrice(ctx, env.Oracle, env.Acc)
+	srv := levkeeper.NewMsgServerImpl(*env.Lev)
+	_, err := srv.ClosePositions(ctx, &levtypes.MsgClosePositions{Creator: bot.String(), StopLoss: []*levtypes.PositionRequest{{Address: owner.String(), Id: 1}}})
+	if err != nil {
+		return
+	}
+	cm := env.Comm.GetCommitments(ctx, levtypes.GetPositionAddress(1))
+	touched := !cm.GetCommittedAmountForDenom(share).Equal(s.posLp) || !env.W.BalOf(owner, usdc).Equal(s.wallet)
+	if !touched {
+		vrf.Cover("untouched")
+		s.check("close-positions(stop-loss)", 1)
+		return
+	}
+	vrf.Cover("closed")
+	vrf.Assert(perr == nil, "C10: a stop-loss close needs a market price")
+	vrf.Assert(!s.stopLoss.IsZero(), "C10: a position without a stop-loss price (0 = not set) cannot be closed at stop-loss by a third party")
+	if perr == nil {
+		vrf.Assert(market.LTE(s.stopLoss), "C10: a third party can close at stop-loss only when the market LP price (accounted TVL per share) has reached the stop-loss price")
+	}
+	s.check("close-positions(stop-loss)", 1)
+}
